@@ -9,6 +9,7 @@ import GocoinV.Proofs.C13Demo
 import GocoinV.Proofs.C13Final
 import GocoinV.Proofs.C13Digest
 import GocoinV.Proofs.C13Inst
+import GocoinV.Proofs.C13Keys
 namespace GocoinV.Props.C13
 open GocoinV GocoinV.WalletTx GocoinV.WalletSpec
 
@@ -454,6 +455,93 @@ theorem stringToSatoshis_wraps :
     stringToSatoshis (strBytes "184467440737.09551615") = .ok (2^64 - 1) ∧
     stringToSatoshis (strBytes "0.00000001") = .ok 1 := by
   refine ⟨?_, ?_, ?_⟩ <;> decide +kernel
+
+/-! ### the key table with imported keys (.others): compressed AND uncompressed keys, in any positions.
+    make_wallet keeps two slices - keys[] (imported keys first, then the deterministic ones) and segwit[], which
+    hash_to_key_idx, sign_tx, pkscr_to_key and apply_to_balance all read as "segwit[i] is the SegWit address OF keys[i]"
+    (nil for a key that is not compressed). The theorems of this section are about tables of ARBITRARY public keys
+    (no `pub_len` hypothesis). -/
+
+/-- **keys_segwit_index_parallel.** The SegWit slice as make_wallet builds it (`segTable`: made with len(keys), entry i
+    written inside `for i, pk := range keys`, left nil when the key is not compressed) has one entry per key, and the
+    model's record table is the two slices zipped index by index: record i = (keys[i].Pubkey, keys[i].Hash160,
+    segwit[i].Hash160 or the nil marker). A SegWit slice that skips the uncompressed keys instead (shorter, entries
+    shifted) is not this table. -/
+theorem keys_segwit_index_parallel (H : Addr.Hashes) (b : Bool) (pubs : List Bytes) :
+    (segTable H b pubs).length = pubs.length ∧
+    ∀ i, (keyTable H b pubs)[i]? =
+      (pubs[i]?).map fun p => ({ pub := p, h160 := H.hash160 p, segH160 := ((segTable H b pubs).getD i none).getD [] } : KeyRec) :=
+  ⟨segTable_length H b pubs, keyTable_zip H b pubs⟩
+
+/-- **hash_lookup_is_wallet_loop.** `hashToKeyIdx` on the record table (what the model's sign_tx / pkscr_to_key / balance
+    update use) is wallet.go's hash_to_key_idx: ONE loop over the index range of keys[], returning the first i with
+    keys[i].Hash160 = h or (segwit[i] != nil and segwit[i].Hash160 = h) - for every non-empty h (every caller passes
+    20 bytes). In particular the index returned for a SegWit hash is an index INTO keys[]. -/
+theorem hash_lookup_is_wallet_loop (H : Addr.Hashes) (b : Bool) (pubs : List Bytes) (h : Bytes) (hne : h ≠ []) :
+    hashToKeyIdx (keyTable H b pubs) h = hashToKeyIdxSlices H pubs (segTable H b pubs) h :=
+  hashToKeyIdx_is_slice_loop H b pubs h hne
+
+/-- **p2sh_input_attributed_to_owner.** In a wallet whose table may hold uncompressed imported keys at any positions
+    (not in bech32 mode), sign_tx on a P2SH-P2WPKH output of the compressed key at index k attributes the input to a
+    COMPRESSED key q of the table whose own redeem script 00 14 HASH160(q) hashes to the script hash being spent:
+    scriptSig = push of exactly that redeem script, witness = <sig‖01> <q>, BIP143 script code = q's P2PKH script.
+    (So HASH160(scriptSig's push) = the hash in the spent script - the P2SH evaluation cannot fail on the redeem
+    script, wherever the uncompressed keys stand.) Hypotheses: HASH160 yields 20 bytes; `no_cross`. -/
+theorem p2sh_input_attributed_to_owner (H : Addr.Hashes) (c : Cfg) (pubs : List Bytes) (sig : SigFn) (i k : Nat) (p : Bytes)
+    (v : Nat) (hash_len : ∀ b, (H.hash160 b).length = 20)
+    (hk : pubs[k]? = some p) (hp : p.length = 33) (hb : c.bech32 = false)
+    (no_cross : NoCross (keyTable H c.bech32 pubs)) :
+    ∃ j q, pubs[j]? = some q ∧ q.length = 33 ∧
+      H.hash160 ([0, 20] ++ H.hash160 q) = H.hash160 ([0, 20] ++ H.hash160 p) ∧
+      signInput H c (keyTable H c.bech32 pubs) sig i
+          (some { value := v, script := p2shScript (H.hash160 ([0, 20] ++ H.hash160 p)) }) =
+        { scriptSig := some ([22, 0, 20] ++ H.hash160 q),
+          witness := some [sig i (.witv0 j (p2pkhScript (H.hash160 q)) v) ++ [1], q], signed := true } :=
+  p2sh_attribution H c pubs sig i k p v hash_len hk hp hb no_cross
+
+/-- **p2pkh_input_attributed_to_owner.** sign_tx on the P2PKH output of ANY key of the table - compressed or an
+    uncompressed imported one, whose SegWit entry is nil (after fix 98d8f688 sign_tx tests `segwit[k] != nil` before
+    comparing addresses; before, it dereferenced the nil entry) - takes the legacy branch: scriptSig =
+    <Tx.Sign signature over the spent script ‖01> <q> for a key q of the table with HASH160(q) = the hash being spent. -/
+theorem p2pkh_input_attributed_to_owner (H : Addr.Hashes) (c : Cfg) (pubs : List Bytes) (sig : SigFn) (i k : Nat) (p : Bytes)
+    (v : Nat) (hash_len : ∀ b, (H.hash160 b).length = 20) (hk : pubs[k]? = some p)
+    (no_cross : NoCross (keyTable H c.bech32 pubs)) :
+    ∃ j q, pubs[j]? = some q ∧ H.hash160 q = H.hash160 p ∧
+      signInput H c (keyTable H c.bech32 pubs) sig i (some { value := v, script := p2pkhScript (H.hash160 p) }) =
+        { scriptSig := some (push1 (sig i (.legacy j (p2pkhScript (H.hash160 p))) ++ [1]) ++ push1 q),
+          witness := none, signed := true } :=
+  p2pkh_attribution H c pubs sig i k p v hash_len hk no_cross
+
+section MixedTable
+open GocoinV.WalletTx.Demo
+
+/-- the mixed table [uncompressed imported key, compressed key]: the SegWit slice is [nil, entry of key 1] -/
+example : (segTable H0 false [unc0, pub0]).map Option.isSome = [false, true] := by decide +kernel
+
+/-- hypotheses of p2sh_input_attributed_to_owner are satisfiable on the mixed table (key 1 behind the uncompressed key) -/
+example :=
+  p2sh_input_attributed_to_owner H0 c0 [unc0, pub0] (fun _ _ => [0x30]) 0 1 pub0 5 (by intro b; simp [H0]) rfl
+    (by simp [pub0]) rfl noCrossMixed
+
+/-- … and the conclusion observed by evaluation: the redeem script written is key 1's (00 14 HASH160(pub0)), the key
+    index handed to the signer is 1 - not 0, which a SegWit slice without the nil entry would give -/
+example : signInput H0 c0 (keyTable H0 false [unc0, pub0]) (fun _ r => match r with | .witv0 j _ _ => [UInt8.ofNat j] | _ => []) 0
+      (some { value := 5, script := p2shScript (H0.hash160 ([0, 20] ++ H0.hash160 pub0)) }) =
+    { scriptSig := some ([22, 0, 20] ++ H0.hash160 pub0), witness := some [[1, 1], pub0], signed := true } := by decide +kernel
+
+/-- p2pkh_input_attributed_to_owner on the uncompressed key itself (index 0): legacy scriptSig with the 65-byte key -/
+example :=
+  p2pkh_input_attributed_to_owner H0 c0 [unc0, pub0] (fun _ _ => [0x30]) 0 0 unc0 5 (by intro b; simp [H0]) rfl noCrossMixed
+
+example : (signInput H0 c0 (keyTable H0 false [unc0, pub0]) (fun _ _ => [0x30]) 0
+      (some { value := 5, script := p2pkhScript (H0.hash160 unc0) })).scriptSig = some ([2, 0x30, 1, 65] ++ unc0) := by decide +kernel
+
+/-- hash_lookup_is_wallet_loop observed: both sides give index 1 for key 1's P2SH hash and index 0 for the uncompressed key's hash -/
+example : hashToKeyIdx (keyTable H0 false [unc0, pub0]) (List.replicate 20 22) = some 1 ∧
+    hashToKeyIdxSlices H0 [unc0, pub0] (segTable H0 false [unc0, pub0]) (List.replicate 20 22) = some 1 ∧
+    hashToKeyIdx (keyTable H0 false [unc0, pub0]) (List.replicate 20 65) = some 0 := by decide +kernel
+
+end MixedTable
 
 /-! ### non-vacuity: the hypotheses are satisfiable and the conclusions are observed on a concrete instance
     (toy hash / always-true verifier from Proofs/C13Demo.lean; one P2PKH coin of 0.6 BTC, pay 0.5 BTC, fee 1000) -/
